@@ -393,6 +393,194 @@ class CEvent:
         SCHED.point('ev-clear')
         self.flag = False
 
+    def wait(self, timeout=None):
+        s = cur()
+        s.point('ev-wait')
+        if not self.flag:
+            s.block_until(lambda: self.flag, 'ev-wait', timeout=timeout is not None)
+        return self.flag
+
+    isSet = is_set
+
+
+class CRLock:
+    def __init__(self):
+        self.owner = None
+        self.count = 0
+
+    def acquire(self, blocking=True, timeout=-1):
+        s = cur()
+        me = s.me() if s is not None else 'unscheduled'
+        if self.owner is me and self.owner is not None:
+            self.count += 1
+            return True
+        if s is None:
+            if self.owner is not None:
+                return False
+            self.owner, self.count = me, 1
+            return True
+        s.point('lock')
+        if self.owner is not None:
+            if not blocking:
+                return False
+            s.block_until(lambda: self.owner is None, 'lock', timeout=timeout is not None and timeout >= 0)
+            if self.owner is not None:
+                return False
+        self.owner, self.count = me, 1
+        return True
+
+    def release(self):
+        if self.owner is None:
+            raise RuntimeError('cannot release un-acquired lock')
+        self.count -= 1
+        if self.count:
+            return
+        self.owner = None
+        s = cur()
+        if s is not None:
+            waiting = any(t.where == 'lock' and t.pred is not None and not t.done for t in s.threads if t is not s.me())
+            s.yield_now = waiting
+            try:
+                s.point('unlock')
+            finally:
+                s.yield_now = False
+
+    def _is_owned(self):
+        s = cur()
+        return self.owner is not None and (s is None or self.owner is s.me())
+
+    def __enter__(self):
+        self.acquire()
+        return self
+
+    def __exit__(self, *a):
+        self.release()
+
+
+class CSemaphore:
+    def __init__(self, value=1):
+        if value < 0:
+            raise ValueError('semaphore initial value must be >= 0')
+        self.value = value
+        self.initial = None
+
+    def acquire(self, blocking=True, timeout=None):
+        s = cur()
+        if s is None:
+            if self.value <= 0:
+                return False
+            self.value -= 1
+            return True
+        s.point('sem')
+        if self.value <= 0:
+            if not blocking:
+                return False
+            s.block_until(lambda: self.value > 0, 'sem', timeout=timeout is not None)
+            if self.value <= 0:
+                return False
+        self.value -= 1
+        return True
+
+    def release(self, n=1):
+        if self.initial is not None and self.value + n > self.initial:
+            raise ValueError('Semaphore released too many times')
+        self.value += n
+        s = cur()
+        if s is not None:
+            s.point('sem-release')
+
+    def __enter__(self):
+        self.acquire()
+        return self
+
+    def __exit__(self, *a):
+        self.release()
+
+
+class CBoundedSemaphore(CSemaphore):
+    def __init__(self, value=1):
+        super().__init__(value)
+        self.initial = value
+
+
+class CCondition:
+    def __init__(self, lock=None):
+        self.lock = lock if lock is not None else CRLock()
+        self.waiters = []
+        self.acquire, self.release = self.lock.acquire, self.lock.release
+
+    def __enter__(self):
+        self.lock.acquire()
+        return self
+
+    def __exit__(self, *a):
+        self.lock.release()
+
+    def wait(self, timeout=None):
+        s = cur()
+        tok = [False]
+        self.waiters.append(tok)
+        # release the lock completely (also a re-entrant one), wait, take it back
+        depth = getattr(self.lock, 'count', 1) or 1
+        for _ in range(depth):
+            self.lock.release()
+        try:
+            s.block_until(lambda: tok[0], 'cond-wait', timeout=timeout is not None)
+        finally:
+            if tok in self.waiters:
+                self.waiters.remove(tok)
+            for _ in range(depth):
+                self.lock.acquire()
+        return tok[0]
+
+    def wait_for(self, predicate, timeout=None):
+        r = predicate()
+        while not r:
+            if not self.wait(timeout) and timeout is not None:
+                return predicate()
+            r = predicate()
+        return r
+
+    def notify(self, n=1):
+        for tok in self.waiters[:n]:
+            tok[0] = True
+        del self.waiters[:n]
+        cur().point('cond-notify')
+
+    def notify_all(self):
+        self.notify(len(self.waiters))
+
+    notifyAll = notify_all
+
+
+class CThread:
+    """threading.Thread stand-in: the body runs as one more scheduled participant."""
+    _n = 0
+
+    def __init__(self, group=None, target=None, name=None, args=(), kwargs=None, *, daemon=None):
+        CThread._n += 1
+        self.name = name or f'thread-{CThread._n}'
+        self._target, self._args, self._kwargs = target, args, kwargs or {}
+        self.daemon = daemon
+        self._rec = None
+
+    def run(self):
+        if self._target is not None:
+            self._target(*self._args, **self._kwargs)
+
+    def start(self):
+        s = cur()
+        self._rec = s.spawn(self.run, self.name)
+        s.point('thread-start')
+
+    def join(self, timeout=None):
+        s = cur()
+        if self._rec is not None and not self._rec.done:
+            s.block_until(lambda: self._rec.done, 'thread-join', timeout=timeout is not None)
+
+    def is_alive(self):
+        return self._rec is not None and not self._rec.done
+
 
 class CQueue:
     def __init__(self, maxsize=0):
@@ -437,6 +625,16 @@ class CQueue:
     def qsize(self):
         return len(self.q)
 
+    def full(self):
+        SCHED.point('q-full?')
+        return bool(self.maxsize) and len(self.q) >= self.maxsize
+
+    def task_done(self):
+        self.unfinished = getattr(self, 'unfinished', 0) - 1
+
+    def join(self):
+        SCHED.block_until(lambda: not self.q, 'q-join')
+
 
 class CFuture(concurrent.futures.Future):
     def _done(self):
@@ -474,6 +672,25 @@ def c_as_completed(fs, timeout=None):
             if f._done():
                 pending.remove(f)
                 yield f
+
+
+def c_wait(fs, timeout=None, return_when='ALL_COMPLETED'):
+    fs = list(fs)
+
+    def ready():
+        d = [f for f in fs if f._done()]
+        if return_when == 'FIRST_COMPLETED':
+            return bool(d)
+        if return_when == 'FIRST_EXCEPTION':
+            return len(d) == len(fs) or any(not f.cancelled() and concurrent.futures.Future.exception(f, 0) is not None for f in d)
+        return len(d) == len(fs)
+
+    if fs and not ready():
+        SCHED.block_until(ready, 'fut-wait', timeout=timeout is not None)
+    else:
+        SCHED.point('fut-wait')
+    done = {f for f in fs if f._done()}
+    return concurrent.futures._base.DoneAndNotDoneFutures(done, set(fs) - done)
 
 
 class CExecutor:
@@ -535,6 +752,28 @@ class CExecutor:
 
     def shutdown(self, wait=True, cancel_futures=False):
         self.shutdown_flag = True
+        if cancel_futures:
+            while self.work:
+                self.work.popleft()[0].cancel()
+
+    def map(self, fn, *iterables, timeout=None, chunksize=1):
+        futs = [self.submit(fn, *args) for args in zip(*iterables)]
+
+        def results():
+            for f in futs:
+                yield f.result()
+        return results()
+
+    def __enter__(self):
+        return self
+
+    def __exit__(self, *a):
+        # ThreadPoolExecutor.__exit__ waits for the submitted work
+        s = cur()
+        self.shutdown_flag = True
+        if s is not None and not s.teardown and not s.aborting:
+            s.block_until(lambda: not self.work and all(w.done or w in self.idle for w in self.workers), 'pool-exit')
+        return False
 
 
 def c_run_coroutine_threadsafe(coro, loop):
@@ -606,6 +845,14 @@ class VLoop(base_events.BaseEventLoop):
 
     def time(self):
         return self._vtime
+
+    def run_in_executor(self, executor, func, *args):
+        # the default executor would be a real thread pool outside the scheduler
+        if executor is None:
+            executor = getattr(self, '_cexec', None)
+            if executor is None:
+                executor = self._cexec = CExecutor(max_workers=4, thread_name_prefix='default-executor')
+        return super().run_in_executor(executor, func, *args)
 
     def _write_to_self(self):
         pass
@@ -705,30 +952,87 @@ class VLoop(base_events.BaseEventLoop):
             self._thread_id = None
 
 
-class _AsyncioProxy:
+class Unsupported(Exception):
+    """The code under test uses a concurrency primitive the scheduler has no controlled version of:
+    the harness cannot decide anything about it (reported as a harness error, never as a violation)."""
+
+
+class _ModProxy:
+    """Stands in for a module object in the namespace of the code under test: controlled versions of
+    the synchronisation primitives, everything else from the real module."""
+
+    def __init__(self, real, over, unsupported=()):
+        self.__dict__['_real'] = real
+        self.__dict__['_over'] = dict(over)
+        self.__dict__['_unsupported'] = frozenset(unsupported)
+
     def __getattr__(self, name):
-        return getattr(asyncio, name)
+        over = self.__dict__['_over']
+        if name in over:
+            return over[name]
+        if name in self.__dict__['_unsupported']:
+            UNSUPPORTED_SEEN.add(f"{self.__dict__['_real'].__name__}.{name}")
+            raise Unsupported(f"{self.__dict__['_real'].__name__}.{name} has no controlled stand-in in mc.dsched")
+        return getattr(self.__dict__['_real'], name)
+
+    def __setattr__(self, name, value):
+        self.__dict__['_over'][name] = value
 
 
+UNSUPPORTED_SEEN = set()
 _ORIGINALS = {}
+
+_FUTURES_OVER = None
+
+
+def _proxies():
+    fut = _ModProxy(concurrent.futures, {
+        'ThreadPoolExecutor': CExecutor, 'as_completed': c_as_completed, 'wait': c_wait, 'Future': CFuture,
+    }, unsupported=('ProcessPoolExecutor',))
+    return {
+        threading: _ModProxy(threading, {
+            'Lock': CLock, 'RLock': CRLock, 'Event': CEvent, 'Semaphore': CSemaphore,
+            'BoundedSemaphore': CBoundedSemaphore, 'Condition': CCondition, 'Thread': CThread,
+        }, unsupported=('Barrier', 'Timer')),
+        _queue: _ModProxy(_queue, {'Queue': CQueue, 'SimpleQueue': CQueue},
+                          unsupported=('LifoQueue', 'PriorityQueue')),
+        concurrent: _ModProxy(concurrent, {'futures': fut}),
+        concurrent.futures: fut,
+        asyncio: _ModProxy(asyncio, {'run_coroutine_threadsafe': c_run_coroutine_threadsafe}),
+    }
+
+
+def _by_identity():
+    return {
+        id(threading.Lock): CLock, id(threading.RLock): CRLock, id(threading.Event): CEvent,
+        id(threading.Semaphore): CSemaphore, id(threading.BoundedSemaphore): CBoundedSemaphore,
+        id(threading.Condition): CCondition, id(threading.Thread): CThread,
+        id(_queue.Queue): CQueue, id(_queue.SimpleQueue): CQueue,
+        id(concurrent.futures.ThreadPoolExecutor): CExecutor, id(concurrent.futures.as_completed): c_as_completed,
+        id(concurrent.futures.wait): c_wait, id(concurrent.futures.Future): CFuture,
+        id(asyncio.run_coroutine_threadsafe): c_run_coroutine_threadsafe,
+    }
 
 
 def uninstall(m):
-    """Give replicat.repository its real primitives back (for runs without the scheduler)."""
+    """Give a module of the code under test its real primitives back (for runs without the scheduler)."""
     for k, v in _ORIGINALS.get(m.__name__, {}).items():
         setattr(m, k, v)
 
 
 def install(m):
-    """Replace the concurrency primitives in replicat.repository's namespace."""
-    _ORIGINALS.setdefault(m.__name__, {k: getattr(m, k) for k in ('ThreadPoolExecutor', 'threading', 'queue', 'concurrent', 'asyncio')})
-    m.ThreadPoolExecutor = CExecutor
-    m.threading = types.SimpleNamespace(Lock=CLock, Event=CEvent)
-    m.queue = types.SimpleNamespace(Queue=CQueue, Empty=_queue.Empty, Full=_queue.Full)
-    m.concurrent = types.SimpleNamespace(futures=types.SimpleNamespace(as_completed=c_as_completed))
-    p = _AsyncioProxy()
-    p.run_coroutine_threadsafe = c_run_coroutine_threadsafe
-    m.asyncio = p
+    """Replace the concurrency primitives in the namespace of a module of the code under test, however
+    it imported them (`import threading`, `from threading import Lock`, `import queue as q`, ...)."""
+    saved = _ORIGINALS.setdefault(m.__name__, {})
+    proxies = _proxies()
+    ident = _by_identity()
+    for k, v in list(vars(m).items()):
+        if isinstance(v, types.ModuleType) and v in proxies:
+            saved.setdefault(k, v)
+            setattr(m, k, proxies[v])
+        elif id(v) in ident and not isinstance(v, types.ModuleType):
+            saved.setdefault(k, v)
+            setattr(m, k, ident[id(v)])
 
 
 class Execution:
@@ -869,7 +1173,7 @@ def find_code(root_code, names):
         co = stack.pop()
         for c in co.co_consts:
             if isinstance(c, types.CodeType):
-                if c.co_name in names:
+                if names is None or c.co_name in names:
                     out.append(c)
                 stack.append(c)
     return out
